@@ -201,22 +201,49 @@ class Runner:
             k = fp_key(fp)
             if k in new:
                 new[k]["count"] += 1
+                if len(new[k]["alts"]) < 2:
+                    new[k]["alts"].append((i, case, v))
                 continue
-            new[k] = {"index": i, "case": case, "violation": v, "count": 1}
+            new[k] = {"index": i, "case": case, "violation": v, "count": 1, "alts": []}
         reported = []
-        for k, ent in list(new.items()):
+        work = list(new.items())
+        while work:
+            k, ent = work.pop(0)
             if budget_left <= 0:
                 break
             budget_left -= 1
             case, v = ent["case"], ent["violation"]
             minimised, vv = case, v
             if case is not None and hasattr(self.mod, "shrink_candidates") and not v.get("nondeterministic_backstop"):
+                recurs = True
                 try:
                     for job, status, payload in run_pool(self._job, [("shrink", case, v["fp"])], 1, 600.0, None, self.rlimit_as, self._init_worker):
                         if status == "ok" and payload is not None:
                             minimised, vv = payload
+                        elif status == "ok":
+                            recurs = False
+                    if not recurs:
+                        # a run is a pure function of its case, so a replay file must fail on its own.  The shrinker's first
+                        # step - the unchanged case, alone, in a fresh process - did not: ask once more, and if the violation
+                        # still does not recur it came from the state of the worker that had run thousands of cases before
+                        # (the listed dependency crashes damage the heap before they kill the process), not from this case.
+                        for job, status, payload in run_pool(self._job, [("exec", case)], 1, 600.0, None, self.rlimit_as, lambda wid: self._init_worker(10001)):
+                            if status != "ok" or any(fp_key(x["fp"]) == k for x in (payload or {}).get("violations", [])):
+                                recurs = True
                 except Exception:
                     traceback.print_exc()
+                    recurs = True
+                if not recurs:
+                    agg["extra"]["unreproduced_violations"] = agg["extra"].get("unreproduced_violations", 0) + ent["count"]
+                    budget_left += 1
+                    print("NOTE: case %d produced %s in a long-lived worker but not when run alone in a fresh process (twice) - no replay file can show it, not reported"
+                          % (ent["index"], json.dumps(v["fp"], sort_keys=True, default=str)[:300]), flush=True)
+                    if ent["alts"]:
+                        # the same fingerprint was also produced by other cases: judge it by the next of them
+                        i2, case2, v2 = ent["alts"].pop(0)
+                        work.insert(0, (k, {"index": i2, "case": case2, "violation": v2, "count": max(1, ent["count"] - 1), "alts": ent["alts"]}))
+                        agg["extra"]["unreproduced_violations"] -= max(0, ent["count"] - 1)
+                    continue
             # the known-findings filter is applied to the minimised case's fingerprint
             hit = next((e for e in known if fp_matches(e, vv["fp"])), None)
             if hit is not None:
